@@ -69,6 +69,15 @@ def answer (docs : Docs) (items : List Sexp) : Option (Docs × String) := do
     let name ← items[1]? >>= Sexp.asAtom
     let d ← items[2]? >>= Doc.ofSexp
     pure ((name, d) :: docs.filter (·.1 != name), "ok")
+  | "gbs" =>
+    let dn ← items[1]? >>= Sexp.asAtom
+    let ty ← items[2]? >>= Sexp.asAtom
+    let p ← items[3]? >>= Sexp.asAtom >>= Driver.Thrift.Proto.of
+    let d ← (docs.find? (·.1 == dn)).map (·.2)
+    let bs ← items[5]? >>= Sexp.asHex
+    match decodeWith d ty p bs (dn.endsWith "k") with
+    | .ok (v, rem) => pure (docs, s!"ok {shown v} rem={rem}")
+    | o => pure (docs, o.cls)
   | "gd" | "gb" | "ga" =>
     let dn ← items[1]? >>= Sexp.asAtom
     let ty ← items[2]? >>= Sexp.asAtom
